@@ -43,6 +43,7 @@ import SwcVerif.Model.AlgoRunRaster
 import SwcVerif.Model.AlgoRunImgIo
 import SwcVerif.Model.AlgoRunImgIo2
 import SwcVerif.Model.AlgoRunParse
+import SwcVerif.Model.AlgoRunReadFront
 import SwcVerif.Model.AlgoRunCut
 import SwcVerif.Model.AlgoRunShortTip
 import SwcVerif.Model.AlgoRunRepair
@@ -118,6 +119,7 @@ def dispatch (op : String) (args : List String) : String :=
   | "gimgsave" | "gimgload" | "gimgnd" | "gimgio" | "gimgget" | "gimgread" => AlgoRun.handleImgIo op args
   | "ggetk" | "ggets" | "gtsinit" | "ggrayget" | "gtostack" | "gsavetifw" | "gsavetifio" | "gfull" | "ggray" | "gframend" | "gnrrd" | "gv3d" | "gv3draw" | "gv3dpbd" => AlgoRun.handleImgIo2 op args
   | "gparse" => AlgoRun.handleParse args
+  | "greadfront" => AlgoRun.handleReadFront args
   | "gtosubtree" | "gcutenter" | "gcutdepth" | "gcutleave" | "gcutleaveset" | "gcuttype" | "gcutorder" => AlgoRun.handleCut op args
   | "gcuttip" => AlgoRun.handleShortTip op args
   | "gsubimpl" => AlgoRun.handleSubImpl args
